@@ -8,11 +8,12 @@
             per job `id`, `status` (null when not sent), `metadata`, `body` (absent when SUCCESS).
   Server  = a script of answers consumed by the server calls of one operation, in call order:
             `outs` for `create_job`/`rerun_job` (accept with a fresh identifier / refuse),
-            `sts` for `get_job_status`.  A script that runs out means *the process stops at that
+            `sts` for `get_job_status` (a status, or a failed request that `_handle_status_error`
+            re-raises or swallows).  A script that runs out means *the process stops at that
             call* (kill, hang): memory is lost and the group is re-opened from the file, so every
             prefix of every loop is a reachable stopping point.
 
-  The code has four behaviours that break property C19 on the pinned tree; each is a flag of
+  The code has five behaviours that break property C19 on the pinned tree; each is a flag of
   `Variant` (`false` = the code as pinned, `true` = the repaired behaviour, `fixes/C19-*.diff`):
   * `ctxFix`  — `RemoteJob._from_dict` restores `job_context` from the stored payload
                 (pinned: a reloaded job has `_job_context = None`, and `_create_payload_data`
@@ -23,7 +24,10 @@
                 `_write_to_file` raises `TypeError` for a job that cannot be serialised, leaving
                 it in memory only);
   * `statFix` — the rerun loop of `_launch_jobs` uses the statuses just refreshed (pinned:
-                `job.is_failed` queries the server again and the new status is not written).
+                `job.is_failed` queries the server again and the new status is not written);
+  * `pollFix` — the sequential wait `while not job.status.completed` writes the last status seen
+                when a status request raises inside it (pinned: the statuses seen during the wait are
+                only written once the job is complete; an error leaving the wait leaves them in memory).
 
   Abstractions (the correspondence harness realises them with concrete values):
   identifiers, job names, handler metadata (token, platform, url, proxies) and the untouched rest
@@ -108,7 +112,7 @@ structure Job where
   deriving DecidableEq, Repr
 
 inductive Err where
-  | typeError | valueError | runtimeError | assertionError | httpError
+  | typeError | valueError | runtimeError | assertionError | httpError | connectionError
   deriving DecidableEq, Repr
 
 /-- `_check_max_shots_samples_validity`: both keys present → compare (a `None` operand is a
@@ -184,12 +188,13 @@ structure Variant where
   dirFix : Bool
   addFix : Bool
   statFix : Bool
+  pollFix : Bool
   deriving DecidableEq, Repr
 
 /-- the code as pinned -/
-def current : Variant := ⟨false, false, false, false⟩
+def current : Variant := ⟨false, false, false, false, false⟩
 /-- the repaired code (main model) -/
-def fixed : Variant := ⟨true, true, true, true⟩
+def fixed : Variant := ⟨true, true, true, true, true⟩
 
 /-- `RemoteJob._from_dict` (+ `JobGroup._build_remote_job`: same handler metadata).  An entry
 without body that is not SUCCESS cannot be produced by `toDict`; the model maps it to a job
@@ -220,6 +225,18 @@ inductive Outcome where
   | refuse
   deriving DecidableEq, Repr
 
+/-- what one `get_job_status` request comes to (`RemoteJob.status` + `_handle_status_error`).  Whether a
+failed request is re-raised or swallowed is decided by the code from the HTTP status code and from its
+in-memory count of faults in a row (`_status_refresh_error`, `_MAX_ERROR`); the model leaves that choice to
+the script, so the theorems hold for every pattern of raised / swallowed faults (the code's pattern is one
+of them). -/
+inductive Ans where
+  | st (x : Status)     -- the server answers; the status becomes `x`
+  | fault (e : Err)     -- the request fails and the error leaves `job.status` (unrecoverable HTTP status,
+                        --   or the `_MAX_ERROR`-th fault in a row): nothing in memory changes
+  | ignored             -- the request fails with a recoverable fault: logged, the previous status is returned
+  deriving DecidableEq, Repr
+
 /-- ghost record of one `create_job` request -/
 structure Sent where
   idx : Nat
@@ -234,7 +251,7 @@ structure State where
   dir : Bool                  -- `<data dir>/job_group` exists
   next : Nat                  -- server: every identifier issued so far is below
   outs : List Outcome         -- script of the running operation
-  sts : List Status
+  sts : List Ans
   sent : List Sent            -- ghost: all `create_job` requests, oldest first
   issued : List Nat           -- ghost: identifiers the server issued to this group's launches
   retired : List Nat          -- ghost: identifiers of failed jobs replaced by their rerun
@@ -299,16 +316,18 @@ def addOp (v : Variant) (s : State) (j : Job) (kw : Option Nat) : State × Res :
         | .ok j2 => writeR { s with mem := s.mem ++ [j2], next := nx }
       else writeR { s with mem := s.mem ++ [j1], next := nx }
 
-/-- `job.status` on job `i`: a sent, not completed job asks the server; `none` = script over -/
-def query (s : State) (i : Nat) : Option State :=
+/-- `job.status` on job `i`: a sent, not completed job asks the server; `.killed` = script over -/
+def query (s : State) (i : Nat) : State × Res :=
   match s.mem[i]? with
-  | none => some s
+  | none => (s, .ok)
   | some j =>
     if j.id.isSome && !j.st.completed then
       match s.sts with
-      | [] => none
-      | x :: rest => some { s with sts := rest, mem := upd (setSt x) s.mem i }
-    else some s
+      | [] => (s, .killed)
+      | .st x :: rest => ({ s with sts := rest, mem := upd (setSt x) s.mem i }, .ok)
+      | .fault e :: rest => ({ s with sts := rest }, .raised e)
+      | .ignored :: rest => ({ s with sts := rest }, .ok)
+    else (s, .ok)
 
 /-- one iteration of `_update_job_statuses` -/
 def refreshOne (v : Variant) (s : State) (i : Nat) : State × Res :=
@@ -318,9 +337,11 @@ def refreshOne (v : Variant) (s : State) (i : Nat) : State × Res :=
     if j.id.isSome && !j.st.completed then
       match s.sts with
       | [] => kill v s
-      | x :: rest =>
+      | .st x :: rest =>
         let s1 : State := { s with sts := rest, mem := upd (setSt x) s.mem i }
         if x = j.st then (s1, .ok) else writeR s1
+      | .fault e :: rest => ({ s with sts := rest }, .raised e)   -- the error leaves `_update_job_statuses`
+      | .ignored :: rest => ({ s with sts := rest }, .ok)
     else (s, .ok)
 
 def refreshIdx (v : Variant) : List Nat → State → State × Res
@@ -333,12 +354,25 @@ def refreshIdx (v : Variant) : List Nat → State → State × Res
 /-- `_update_job_statuses` -/
 def refreshAll (v : Variant) (s : State) : State × Res := refreshIdx v (List.range s.mem.length) s
 
-/-- `while not job.status.completed` on the job just sent: `none` = never completes (script over) -/
-def pollSts : Status → List Status → Option (Status × List Status)
-  | cur, [] => if cur.completed then some (cur, []) else none
-  | cur, x :: r => if cur.completed then some (cur, x :: r) else pollSts x r
+/-- how `while not job.status.completed` on the job just sent ends -/
+inductive Poll where
+  | done (x : Status) (rest : List Ans)              -- completed with status `x`
+  | cut                                              -- never completes: the script is over
+  | raised (x : Status) (e : Err) (rest : List Ans)  -- a status request raised; last status seen `x`
+  deriving DecidableEq, Repr
 
-/-- after a job was sent: write; sequential mode: poll job `p` until completed, write again -/
+def pollSts : Status → List Ans → Poll
+  | cur, [] => if cur.completed then .done cur [] else .cut
+  | cur, a :: r =>
+    if cur.completed then .done cur (a :: r)
+    else match a with
+      | .st x => pollSts x r
+      | .ignored => pollSts cur r
+      | .fault e => .raised cur e r
+
+/-- after a job was sent: write; sequential mode: poll job `p` until completed, write again.
+A status request that raises inside the wait ends the launch; `pollFix`: the last status seen is written
+first (`try … finally`), pinned: it stays in memory only. -/
 def afterSend (v : Variant) (seq : Bool) (s : State) (p : Nat) : State × Res :=
   match write s with
   | .error e => (s, .raised e)
@@ -348,8 +382,15 @@ def afterSend (v : Variant) (seq : Bool) (s : State) (p : Nat) : State × Res :=
       | none => (s1, .ok)
       | some j =>
         match pollSts j.st s1.sts with
-        | none => kill v s1
-        | some (x, rest) => writeR { s1 with sts := rest, mem := upd (setSt x) s1.mem p }
+        | .cut => kill v s1
+        | .done x rest => writeR { s1 with sts := rest, mem := upd (setSt x) s1.mem p }
+        | .raised x e rest =>
+          let s2 : State := { s1 with sts := rest, mem := upd (setSt x) s1.mem p }
+          if v.pollFix then
+            match write s2 with
+            | .ok s3 => (s3, .raised e)
+            | .error e' => (s2, .raised e')
+          else (s2, .raised e)
     else (s1, .ok)
 
 /-- one iteration of the launch loop, `rerun = False`: `execute_async` on an unsent job -/
@@ -379,9 +420,10 @@ def execIter (v : Variant) (seq : Bool) (s : State) (i : Nat) : State × Res :=
 
 /-- one iteration of the launch loop, `rerun = True` -/
 def rerunIter (v : Variant) (replace seq : Bool) (s : State) (i : Nat) : State × Res :=
-  match (if v.statFix then some s else query s i) with
-  | none => kill v s
-  | some s0 =>
+  match (if v.statFix then (s, Res.ok) else query s i) with
+  | (_, .killed) => kill v s
+  | (s', .raised e) => (s', .raised e)
+  | (s0, .ok) =>
     match s0.mem[i]? with
     | none => (s0, .ok)
     | some j =>
@@ -453,9 +495,9 @@ inductive Op where
   | reopen
   | add (j : Job) (kw : Option Nat)
   | addLocal                      -- `add(<not a RemoteJob>)` → `TypeError`, nothing changes
-  | launch (rerun replace seq : Bool) (outs : List Outcome) (sts : List Status)
-  | progress (sts : List Status)
-  | list (k : ListKind) (sts : List Status)
+  | launch (rerun replace seq : Bool) (outs : List Outcome) (sts : List Ans)
+  | progress (sts : List Ans)
+  | list (k : ListKind) (sts : List Ans)
   deriving Repr
 
 structure Out where
